@@ -25,7 +25,9 @@ def union_copy_shortcut_wrong_member(v):
     # general form of the same mechanism (C11): the union serializer takes the first member, in declaration
     # order, whose packer does not raise; a non-basic member declared before the value's own member got the value
     if bool(f.get("earlier_nonscalar_member_before_value_member")) and v.get("sig", "").startswith("encode:"):
-        return True
+        # where the union is the outermost node the observation must be EXACTLY the rendering by the first earlier member
+        # whose packer does not raise (C11 computes that with the library's own packer of that member)
+        return f.get("equals_blind_encoding_by_earlier_member") is not False
     # the same seen through a format codec (C04): the document is the rendering of the earlier member (e.g. a dataclass
     # member all of whose fields are constants accepts any object when called through a codec), or the routes differ
     if bool(f.get("earlier_nonscalar_member_before_value_member")) and (
